@@ -9,7 +9,8 @@ RULE = ("NALs free of forbidden byte sequences (generated SPS, PPS, SEI lists, s
         "presented as an incomplete NAL in a random chunking; each command is executed twice by the harness (purity) with a "
         "dirty scratch buffer for SEI. cross-check on the implementation's answers: a prefix either fails with WouldBlock or "
         "agrees with the complete NAL (same value / both errors); SPS and PPS never succeed on a proper prefix; SEI yields a "
-        "prefix of the message sequence then a WouldBlock failure. non-trivial = prefix of length >= 2")
+        "prefix of the message sequence then a WouldBlock failure; streams pushed in 1-5 byte pieces through the accumulator with handlers "
+        "that buffer a few deliveries of a NAL and then ignore it (model = implementation on every view and parse). non-trivial = prefix of length >= 2")
 CORRESPONDENCE = "model parsers over incomplete sources (tail = WouldBlock) vs crate parsers over incomplete RefNal"
 ASSUMPTIONS = ["hidden state across calls cannot exist in the model; repetition / scratch reuse is observed on the real code only"]
 
@@ -59,6 +60,20 @@ def gen(tier, rng):
         ks = range(1, len(nal)) if len(nal) <= 60 else sorted(set(rng.randrange(1, len(nal)) for _ in range(40)))
         for k in ks:
             cases.append(line(nal_src(chunkings(rng, nal[:k], 1)[0], False)))
+    # partial views as the handler really gets them: streams pushed in 1-3 byte pieces through AnnexBReader::accumulate with a
+    # handler that buffers a NAL for a few deliveries and then loses interest (the incremental slice-header pattern) - the
+    # next NAL must again be shown from its own first byte and parse as it does alone (pipeline command, model = impl)
+    from vlib.props import C12
+    for i in range(60 if tier == "quick" else 1500):
+        _s, _p, nals = C12.make_stream(rng)
+        stream = C12.serialise(rng, nals)
+        parts, j = [], 0
+        while j < len(stream):
+            k = rng.choice([1, 1, 2, 3, 5])
+            parts.append(stream[j:j + k])
+            j += k
+        pol = "".join(rng.choice(["B", "BB", "BBB", "BBBB"]) + rng.choice(["I", "I", "B"]) for _ in range(rng.randrange(2, 12)))
+        cases.append("pipeline - %s %s" % (",".join(hx(x) for x in parts), pol))
     # partial views of NALs up to 16 MiB as they arrive through AnnexBReader::accumulate: every incomplete view is a prefix of
     # the complete NAL (implementation only, judged by big_check)
     from vlib.annexb_util import big_scripts
@@ -83,7 +98,7 @@ def extra_check(r):
 
 
 def key_of(case):
-    if case.startswith("!"):
+    if case.startswith("!") or case.startswith("pipeline "):
         return "big", "", "c", ""
     p = case.split()
     cmd = p[0]
